@@ -33,6 +33,7 @@ var BaseForms = []BaseForm{
 	{ID: "servers-host-only", Servers: "https://example.com"},
 	{ID: "servers-first-host-only-second-path", Servers: "https://example.com", More: []string{"https://staging.example.com/v1", "/v2"}},
 	{ID: "servers-two-paths", Servers: "/v1", More: []string{"/v2/deep"}},
+	{ID: "servers-variable-twice", Servers: "https://{tenant}.example.com/{tenant}/{version}/{tenant}", Vars: M{"tenant": M{"default": "acme"}, "version": M{"default": "v1"}}},
 }
 
 var pathVarTypes = []M{
